@@ -1297,6 +1297,11 @@ def view_diff(a, b):
         if a[k] != b[k]:
             return "%s: %r vs model %r" % (k, a[k], b[k])
     fa, fb = dict(a["fields"]), dict(b["fields"])
+    if a["status"] == 304:
+        # h1_send_headers / h2_send_headers drop Content-Encoding from a 304 on purpose; the model does so for
+        # HTTP/1.x only (the harness observes HTTP/2 before h2_send_headers)
+        fa.pop(b"content-encoding", None)
+        fb.pop(b"content-encoding", None)
     if a["complete"] is True or a["cend"] == "ka":
         if a["body"] != b["body"]:
             return "body differs from the model's"
